@@ -105,8 +105,10 @@ def run(ctx):
                    "/ starve-D / eager-D, some with spurious wake-ups); watchdog phase varies with the durations of the "
                    "hosts that ran before.  Granularity `fan` runs go through the Lean acceptor and the monitors, "
                    "granularity `all` runs (every libc call a scheduling point, non-atomic watchdog scan) through the "
-                   "monitors only.  thorough: ALL vectors over the core alphabet for N<=3 (and a reduced alphabet for "
-                   "N=4) x 6 timeout settings x fanouts.  Distinct = distinct (vector, timeouts, fanout, projected "
+                   "monitors only.  thorough: ALL vectors over the full alphabet for N<=2 and (2 timeout settings) N=3, over "
+                   "the core alphabet for N=3 and a reduced alphabet for N=4, x 6 timeout settings x fanouts; plus, as "
+                   "SUPPORTING evidence only, real `pdsh -R exec -u 2` runs of the scratch build on healthy / failing / "
+                   "dying / hanging commands (wall clock).  Distinct = distinct (vector, timeouts, fanout, projected "
                    "trace); non-trivial = at least one faulty host and one healthy host, or a timeout fired"}
     dist = {"status": {}, "rejects": 0, "N": {}, "yield": {}, "timeouts_fired": 0, "excluded_runs": 0,
             "behaviours": {}, "accepted": 0}
@@ -134,6 +136,8 @@ def run(ctx):
                 ctx.log("replay: the file names no case; re-run the tier instead")
         else:
             explore(ctx, exe_san, exe, variant, cov, dist)
+            if not ctx.quick() and not ctx.violations:
+                real_runs(ctx, cov)
     return ctx.finish(
         LEVEL, cov,
         assumptions=["maximal progress: computation is instantaneous at the granularity of the 1 s clock (the virtual "
@@ -152,6 +156,48 @@ def run(ctx):
                       "harness/sched/* (scheduler, virtual clock, wrappers, stub transport below the real rcmd.c), "
                       "vlib/sched.py, vlib/timedcheck.py, gcc, ASan/UBSan"],
         checker_cmd="lake build PdshVerif.Props.C07 && #print axioms on every theorem of Props/C07.lean")
+
+
+def real_runs(ctx, cov):
+    """SUPPORTING (not proof, real kernel, real threads, wall clock): the scratch build of pdsh with -R exec and
+    -u 2 on a mix of healthy, failing, dying and hanging commands: the healthy ones are relayed completely, the
+    hanging one is reported as `command timeout` under its name, and pdsh ends within timeout + WDOG_POLL + slack."""
+    import os
+    import subprocess
+    import time
+    repo = ctx.repo_build()
+    if not repo:
+        return
+    helper = os.path.join(ctx.scratch, "c07helper.sh")
+    with open(helper, "w") as f:
+        f.write("#!/bin/sh\ncase $1 in\n r0) echo out-$1; echo err-$1 >&2;;\n r1) echo out-$1; exit 3;;\n"
+                " r2) echo before-$1; exec sleep 30;;\n r3) echo out-$1; kill -9 $$;;\n r4) sleep 1; echo late-$1;;\n"
+                " *) echo out-$1;;\nesac\n")
+    os.chmod(helper, 0o755)
+    real = []
+    for fan in (1, 3, 8):
+        t0 = time.time()
+        try:
+            p = subprocess.run([os.path.join(repo, "src/pdsh/pdsh"), "-R", "exec", "-u", "2", "-f", str(fan), "-w",
+                                "r[0-5]", helper, "%h"], stdout=subprocess.PIPE, stderr=subprocess.PIPE, timeout=60,
+                               env={"PATH": os.environ.get("PATH", "/usr/bin:/bin")})
+            out, err, rc = p.stdout.decode("utf-8", "replace"), p.stderr.decode("utf-8", "replace"), p.returncode
+        except subprocess.TimeoutExpired:
+            out, err, rc = "", "TIMEOUT", -1
+        wall = time.time() - t0
+        want = ["r0: out-r0", "r1: out-r1", "r2: before-r2", "r3: out-r3", "r4: late-r4", "r5: out-r5"]
+        missing = [w for w in want if w not in out.splitlines()]
+        reported = any(l.endswith("r2: command timeout") for l in err.splitlines())
+        # sequential worst case at fanout 1: 1 s (r4) + command timeout 2 + WDOG_POLL 2, plus generous slack
+        ok = not missing and reported and "r0: err-r0" in err.splitlines() and wall < 2 + 2 + 1 + 6 and rc >= 0
+        real.append({"fanout": fan, "wall_s": round(wall, 2), "ok": ok, "missing": missing, "timeout_reported": reported})
+        cov["evaluations"] += 1
+        if not ok:
+            ctx.offender("real-run", "pdsh -R exec -u 2 -f %d: missing=%s reported=%s wall=%.1fs rc=%s stderr=%r" %
+                         (fan, missing, reported, wall, rc, err[-300:]),
+                         {"cmd": "pdsh -R exec -u 2 -f %d -w r[0-5] c07helper.sh %%h" % fan, "helper": open(helper).read()})
+    cov["supporting_real_runs"] = real
+    ctx.log("supporting real runs: %s" % real)
 
 
 def explore(ctx, exe_san, exe, variant, cov, dist):
@@ -219,6 +265,14 @@ def explore(ctx, exe_san, exe, variant, cov, dist):
     # worker outside xpoll at that instant: finest granularity, several schedules)
     chatty = {"conn": ["ok", 0], "out": [[0, 5], [4, 5], [-1, "EOF"]], "err": [[-1, "EOF"]]}
     corpus = [T.mk_case([chatty], 1, 2, 3, False, 100 + k, yld="all") for k in range(16)]
+    # corpus: the watchdog decides to interrupt worker 0 (overdue), worker 0's connect completes in that instant and
+    # it finishes, worker 1 inherits the thread id, the pthread_kill then hits the healthy worker 1 (F07-STALEID)
+    slowc = {"conn": ["ok", 4], "out": [[0, "EOF"]], "err": [[0, "EOF"]]}
+    fastc = {"conn": ["ok", 1], "out": [[0, 4], [0, "EOF"]], "err": [[0, "EOF"]]}
+    stale = T.mk_case([slowc, fastc], 1, 3, 0, False, 1, strategy="list", yld="all")
+    stale["choices"] = ("D D D D D D D D W0 W0 W0 W0 t G G t G G W0 W0 W0 W0 W0 W0 W0 W0 W0 W0 W0 W0 W0 W0 D W0 D D W1 W1 "
+                        "W1 W1 D D D G W1 W1 W1 W1 W1 W1 W1 W1 W1 W1 D D D D D D").split()
+    corpus.append(stale)
     for c in corpus:
         c["budget"] = 20000
     run_chunked(corpus, "corpus")
@@ -234,6 +288,7 @@ def explore(ctx, exe_san, exe, variant, cov, dist):
         cases = list(vectors(1, sorted(T.alphabet(2, 3)), settings_t, [1, 2], rng))
         cases += list(vectors(2, sorted(T.alphabet(2, 3)), settings_t, [1, 2, 3], rng))
         cases += list(vectors(3, T.CORE, settings_t, [1, 2, 4], rng))
+        cases += list(vectors(3, sorted(T.alphabet(2, 3)), settings_t[:2], [1, 2], rng))
         cases += list(vectors(4, ["ok", "refuse", "hang-connect", "hang-after", "close-out-early"], settings_t[:3], [1, 2, 3], rng))
         run_chunked(cases, "all fault vectors N<=3 (+N=4 reduced alphabet)")
         rnd = [gen_random(rng, 8) for _ in range(20000)]
